@@ -299,6 +299,68 @@ def format_nodes(ctx, o):
         return [format_nodes(ctx, x) for x in o]
     return o
 
+# ------------------------------------------------------------------ stdlib formatting oracle
+NA = ('__not_applicable__',)
+
+
+def _plain_scalar(v):
+    return v is None or isinstance(v, (bool, int, float)) or \
+        (isinstance(v, str) and '{' not in v and '}' not in v)
+
+
+def std_format(s, ctxd):
+    """The formatted value of ONE string, computed without pypyr and without the model:
+    python's own string.Formatter tokenises it; only literal text, the {{ / }} escapes and
+    plain {name} references (no conversion, no spec, no accessor) to plain scalars of the
+    context are in scope - anything else: NA.  A string that is exactly one reference
+    yields the referenced scalar itself (the documented keep-type rule); otherwise the
+    pieces are joined as str.format does."""
+    import string
+    try:
+        items = list(string.Formatter().parse(s))
+    except ValueError:
+        return NA
+    fields = []
+    for lit, name, spec, conv in items:
+        if name is None:
+            continue
+        if spec or conv or not name.isidentifier() or name not in ctxd or not _plain_scalar(ctxd[name]):
+            return NA
+        fields.append(name)
+    if len(items) == 1 and items[0][0] == '' and fields:
+        return ctxd[fields[0]]
+    try:
+        return string.Formatter().vformat(s, (), {k: ctxd[k] for k in fields})
+    except Exception:
+        return NA
+
+
+def std_format_nodes(o, ctxd):
+    """Every string node (keys included) through std_format; NA if any node is out of scope."""
+    if isinstance(o, str):
+        return std_format(str(o), ctxd)
+    if isinstance(o, Mapping):
+        out = {}
+        for k, x in o.items():
+            fk, fx = std_format_nodes(k, ctxd), std_format_nodes(x, ctxd)
+            if fk is NA or fx is NA:
+                return NA
+            try:
+                out[fk] = fx
+            except TypeError:
+                return NA
+        return out
+    if isinstance(o, list):
+        xs = [std_format_nodes(x, ctxd) for x in o]
+        return NA if any(x is NA for x in xs) else xs
+    if isinstance(o, (tuple, set, frozenset, bytes)):
+        return NA
+    return o
+
+
+def plain_ctx(case, sb):
+    return {k: to_py(v, sb.sub) for k, v in case['ctx']}
+
 # ------------------------------------------------------------------ running cases
 
 
@@ -390,6 +452,10 @@ def run_wf(case):
         obs['fp'] = ['ok', canon(fp_obj, sb.unsub)] if fp[0] == 'ok' else fp
         fpath = attempt(lambda: ctx.get_formatted_value(to_py(case.get('fetch_path', case['path']), sb.sub)))
         obs['fetch_path'] = canon(fpath[1], sb.unsub) if fpath[0] == 'ok' else None
+        if 'payload' in case:
+            st = std_format_nodes(to_py(case['payload'], sb.sub), plain_ctx(case, sb))
+            if st is not NA:
+                obs['fp_std'] = canon(st, sb.unsub)
         if 'key' in case and case.get('fetch_form') != 'str':
             kf = attempt(lambda: ctx.get_formatted_value(to_py(case['key'], sb.sub)))
             obs['key_f'] = ['ok', canon(kf[1], sb.unsub)] if kf[0] == 'ok' else kf
@@ -410,6 +476,10 @@ def run_wf(case):
         else:
             obs['write'] = None
         obs['files'] = sb.files(enc)
+        if obs['write'] is not None and obs['write'][0] == 'ok' and len(obs['files']) == 1:
+            # what the step wrote, read back with the parser called directly
+            fpz = attempt(codec_parse, fmt, obs['files'][0][1].replace(ROOT, sb.tmp))
+            obs['file_parsed'] = ['ok', canon(fpz[1], sb.unsub)] if fpz[0] == 'ok' else fpz
         # 2. fetch (same context object, as in a pipeline)
         if obs['write'] is None or obs['write'][0] == 'ok':
             before = canon(dict(ctx), sb.unsub)
@@ -500,6 +570,10 @@ def run_ff(case):
             # the statement's expectation: node-wise formatting of the parsed input
             ex = attempt(lambda: format_nodes(ctx, codec_parse(fmt, text, True)))
             obs['expected'] = ['ok', canon(ex[1], sb.unsub)] if ex[0] == 'ok' else ex
+            # ... and the same expectation from python's own formatter, where it applies
+            st = std_format_nodes(codec_parse(fmt, text, True), plain_ctx(case, sb))
+            if st is not NA:
+                obs['expected_std'] = canon(st, sb.unsub)
         else:
             oracle['in_parsed'] = pin
         obs['oracle'] = oracle
